@@ -759,7 +759,7 @@ theorem ucNTk : ∀ (fs : List (String × Ty)) (cx : Cx) (fx : Fx) (v : V) (nreq
             simp only [List.drop_zero, confN, Bool.and_eq_true] at hdef
             simp at hdv; subst hdv; exact hdef.1
         | succ k => simp at hdv
-      cases hx : (if t.constUnpack = true then (pure V.none : R V) else pyGetItemStr v n) with
+      cases hx : pyGetItemStr v n with
       | error e =>
         rw [hx] at h
         simp only [] at h
@@ -797,7 +797,7 @@ theorem ucNTd : ∀ (fs : List (String × Ty)) (cx : Cx) (fx : Fx) (v : V) (i : 
   | (n, t) :: fs, cx, fx, v, i, asD, rs, hw, h => by
       simp only [WFN] at hw
       rw [unpackNTd] at h
-      cases hx : (if t.constUnpack = true then (pure V.none : R V) else if asD = true then pyGetItemStr v n else pyIndexO O v i) with
+      cases hx : (if (t.constUnpack && !cx.fixK3) = true then (pure V.none : R V) else if asD = true then pyGetItemStr v n else pyIndexO O v i) with
       | error e =>
         rw [hx] at h
         simp only [] at h
